@@ -93,6 +93,16 @@ def r19_2_scanner_decoder(repo: Repo, rep: Report):
             rep.bad("R19.2", m, n, src(n), "scanner stride is neither insn_len(opcode) nor 1 under opcode == OP_JUMPDEST")
     if n_sites < 1:
         raise AnalysisError("R19.2: no pc stride found in the scanner")
+    # the scan covers both byte sources completely: the only way out of a loop is a non-concrete opcode, and nothing
+    # leaves the function before both sources were scanned
+    exits = [n for n in body_walk(scan) if isinstance(n, (ast.Break, ast.Return))]
+    for n in exits:
+        in_handler = any(isinstance(a, ast.ExceptHandler) and a.type is not None and "NotConcreteError" in src(a.type) for a in m.ancestors(n))
+        last_return = isinstance(n, ast.Return) and n is scan.body[-1]
+        rep.check("R19.2", in_handler or last_return, m, n, f"scanner exit `{src(n)}`" + (" in except NotConcreteError" if in_handler else " (final return)" if last_return else f" under {sorted(guard_set(m, n))}"), "the scan is cut short: the second (symbolic-chunk aware) pass or the rest of the code is skipped, and JUMPDESTs behind a symbolic chunk are missing from valid_jumpdests()")
+    srcs = [l for l in body_walk(scan) if isinstance(l, ast.For)]
+    ok = len(srcs) == 1 and src(srcs[0].iter).replace(" ", "") in ("(self._fastcode,self._code)", "[self._fastcode,self._code]")
+    rep.check("R19.2", ok, m, srcs[0] if srcs else scan, f"scanner sources: {src(srcs[0].iter) if srcs else '?'}", "both the concrete prefix and the full code must be scanned")
     adds = [c for c in method_calls(scan, "add") if dotted(c.func).startswith("jumpdests")]
     if not adds:
         rep.bad("R19.2", m, scan, "jumpdests.add(pc)", "scanner never records a jump destination")
